@@ -58,7 +58,7 @@ pub fn probe_program() -> Program {
         mk("Top", vec![f("m", Ty::Def(2, vec![])), f("v", Ty::Vec(Ty::Tuple(vec![Ty::Def(0, vec![]), Ty::Prim(Prim::U8)]).b()))]),
         mk("Alone", vec![f("y", Ty::Prim(Prim::U16)), f("z", Ty::Prim(Prim::U16))]),
     ];
-    Program { krate: "krate".into(), defs, markers: vec![], roots: vec![Ty::Def(3, vec![]), Ty::Def(4, vec![])] }
+    Program { krate: "krate".into(), defs, markers: vec![], roots: vec![Ty::Def(3, vec![]), Ty::Def(4, vec![])], prefix: vec![] }
 }
 
 fn ancestors_or_self(path: &str) -> Vec<&'static str> {
